@@ -180,4 +180,174 @@ def check_C25(tier, seed):
                    "must get the same verdict, compile, and match the same Sem.tla records on every input up to the bound")
 
 
-REGISTRY = {"C14": check_C14, "C25": check_C25}
+# --------------------------------------------------------------------------
+# C15: conditional compilation
+# --------------------------------------------------------------------------
+FEATS = ["fa", "fb", "fc"]
+
+
+def rand_pred(rng, depth=0):
+    r = rng.random()
+    if depth >= 2 or r < 0.45:
+        return {"k": "feature", "n": rng.choice(FEATS)}
+    if r < 0.65:
+        return {"k": "not", "a": rand_pred(rng, depth + 1)}
+    k = "all" if r < 0.83 else "any"
+    return {"k": k, "args": [rand_pred(rng, depth + 1) for _ in range(rng.choice([1, 2, 2, 3]))]}
+
+
+def cfg_population(tier, seed):
+    rng = random.Random(seed * 13 + 3301)
+    n_ast = 22 if tier == "quick" else 150
+    out = []
+    i = 0
+    while i < n_ast:
+        g = gen.random_grammar(rng, i, max_nt=4, max_t=4, max_prods=9, max_rhs=3,
+                               shape=rng.choice(["layered", "lists", "plain"]))
+        cg = core.annotate(g, rng, p_loc=0.2, p_fallible=0.1)
+        cfg = {"nt": {}, "alt": {}, "t": {}}
+        for t in cg["ts"][1:]:
+            if rng.random() < 0.3:
+                cfg["t"][t] = [rand_pred(rng) for _ in range(rng.choice([1, 1, 2]))]
+        for nt in cg["nts"]:
+            if nt not in cg["starts"] and cg["kinds"][nt] != "infer" and rng.random() < 0.35:
+                cfg["nt"][nt] = [rand_pred(rng) for _ in range(rng.choice([1, 1, 2]))]
+        for j, p in enumerate(cg["prods"]):
+            preds = []
+            # (an alternative with no symbols at all cannot carry attributes: LALRPOP's syntax has none there)
+            if rng.random() < 0.3 and cg["kinds"][p["lhs"]] != "infer" and p["syms"]:
+                preds.append(rand_pred(rng))
+            for x in p["rhs"]:
+                src = cfg["t"].get(x) or cfg["nt"].get(x)
+                if src and rng.random() < 0.9 and cg["kinds"][p["lhs"]] != "infer":
+                    preds += [q for q in src if q not in preds]
+            if preds:
+                cfg["alt"][str(j)] = preds
+        if not (cfg["t"] or cfg["nt"] or cfg["alt"]):
+            continue
+        cg["cfg"] = cfg
+        for v in range(8):
+            x = copy.deepcopy(cg)
+            x["id"] = "f%04dv%d" % (i, v)
+            x["features"] = [f for b, f in enumerate(FEATS) if v >> b & 1]
+            x["no_machine"] = True
+            out.append(x)
+        i += 1
+    return out
+
+
+def _cfg_variants(cg, idx):
+    return [("lane", "table"), ("lane", "ascent")] if idx % 2 == 0 else [("lane", "table")]
+
+
+def _cargo_env_agreement(tier, seed, rep):
+    """features given through CARGO_FEATURE_* (process_dir) produce byte-identical output to set_features"""
+    import lp
+    from vlib import mkscratch, rmtree
+    rng = random.Random(seed + 77)
+    pop = cfg_population(tier, seed)
+    sample = rng.sample(pop, min(len(pop), 24 if tier == "quick" else 120))
+    wd = mkscratch("cfgenv")
+    try:
+        jobs = []
+        for cg in sample:
+            for via in ("set_features", "cargo_env"):
+                d = os.path.join(wd, via, cg["id"])
+                os.makedirs(os.path.join(d, "out"))
+                path = os.path.join(d, "g.lalrpop")
+                with open(path, "w") as f:
+                    f.write(core.render(cg))
+                jobs.append({"id": "%s@%s" % (cg["id"], via), "file": path, "features": cg["features"], "via": via,
+                             "out_dir": os.path.join(d, "out")})
+        res = lp.run_jobs(jobs, wd, procs=1)   # the environment is process-wide: one process, sequential
+        n = 0
+        for cg in sample:
+            a = res["%s@set_features" % cg["id"]]
+            b = res["%s@cargo_env" % cg["id"]]
+            n += 1
+            fa = os.path.join(wd, "set_features", cg["id"], "out", "g.rs")
+            fb = os.path.join(wd, "cargo_env", cg["id"], "out", "g.rs")
+            same = (a["status"] == b["status"]) and (os.path.exists(fa) == os.path.exists(fb)) and \
+                (not os.path.exists(fa) or open(fa, "rb").read() == open(fb, "rb").read())
+            rep_case = {"grammar": cg["id"], "features": cg["features"], "status": a["status"]}
+            rep.case(rep_case)
+            if not same:
+                rep.violation("kind=cargo_feature_env_differs", "features %s via CARGO_FEATURE_* give a different result than "
+                              "set_features (%s vs %s)" % (cg["features"], b["status"], a["status"]),
+                              {"engine": "core", "cg": cg, "prop": "C15", "algo": "lane", "backend": "table", "start": cg["starts"][0],
+                               "input": []})
+        rep.add(cargo_env_comparisons=n)
+    finally:
+        rmtree(wd)
+
+
+def check_C15(tier, seed):
+    def owner(cg, prop):
+        return "C15" if prop in ("C01", "C02", "C04", "C06", "C07", "C17", "C19", "C08") else prop + "@base"
+
+    s = _summary("cfg", tier, seed, cfg_population, _cfg_variants, owner)
+    rep = Report("C15", tier, "model_checking", seed)
+    n = s["stats"]["C01"]
+    rep.evaluations = n
+    rep._distinct = set(range(n))
+    rep.add(states=s["states"], transitions=s["generated"], traces_validated_against_impl=n,
+            grammar_variants=s["grammars_lr1"], modules_compiled=s["modules"], spec_records=s["records"],
+            record_kinds=s["record_kinds"], variants_rejected_by_lalrpop=s["rejected_by_lalrpop"])
+    for x in s["samples"]:
+        rep.sample(x)
+    for d in s["disagreements"]:
+        if d["prop"] == "C15":
+            rep.violation(c_core.dkey(d), c_core.describe(d), c_core.replay_obj(d))
+    # a (grammar, feature set) the spec can evaluate must be accepted by LALRPOP
+    for m, msg in s["rejected"]:
+        gid, algo, backend = m.split("_")
+        rep.violation("kind=rejected_under_features algo=%s backend=%s" % (algo, backend),
+                      "LALRPOP rejects %s although the grammar that remains after deleting inactive declarations is "
+                      "self-contained and LR(1): %s" % (m, msg), {"engine": "core", "prop": "C15", "module": m})
+    _cargo_env_agreement(tier, seed, rep)
+    rep.assumptions = ["TLC evaluates Cfg.tla / Sem.tla faithfully", "feature names without `_` (Cargo's encoding of feature names "
+                       "in CARGO_FEATURE_* is not invertible otherwise)"]
+    return rep.finish(rule="random annotated grammars with random cfg predicates (feature / not / all / any, nested to depth 3, "
+                           "several attributes per item) on nonterminals, alternatives and extern conversions; every subset of 3 "
+                           "features; Cfg.tla deletes the inactive declarations and Sem.tla evaluates what remains (only "
+                           "self-contained LR(1) remainders are compared); the parser LALRPOP generates from the annotated text "
+                           "under that feature set must match on every input up to the bound; CARGO_FEATURE_* must give "
+                           "byte-identical output to set_features")
+
+
+REGISTRY = {"C14": check_C14, "C25": check_C25, "C15": check_C15}
+
+
+ENGINES = [{"name": "feat", "path": "tools/c_feat.py (on top of engine core), spec/Sem.tla (inline), spec/Cfg.tla",
+            "serves_properties": ["C14", "C15", "C25"],
+            "kind_free_text": "one grammar rendered in variants (inline subsets, feature sets, renamings); each variant's expected "
+                              "behaviour from Sem.tla (+ Cfg.tla); replayed through the generated parsers"}]
+
+
+def _entry(p, text, note):
+    return {"property_id": p, "quick_cmd": "./check %s --tier quick" % p, "thorough_cmd": "./check %s --tier thorough" % p,
+            "evidence_file": "evidence/%s.json" % p, "replay_cmd_template": "./check %s --replay {path}" % p, "engine": "feat",
+            "level_claimed": {"category": "model_checking", "text": text, "design_ref": "DESIGN.md 4.5, 5/%s" % p},
+            "level_note": note,
+            "technique": "TLA+ specification of the feature's meaning (Sem.tla / Cfg.tla), behaviours enumerated by TLC for every "
+                         "input up to a bound and replayed through the parsers LALRPOP generates for each variant"}
+
+
+MANIFEST = [
+    _entry("C14", "Sem.tla parses the grammar as written and defers the actions of #[inline] nonterminals to their host; TLC "
+                  "enumerates every input up to the bound for each subset of inlinable nonterminals; the parser generated for each "
+                  "variant must agree on accept/reject, value, user error and action order.",
+           "Only variants whose un-inlined grammar is LR(1) can be evaluated (the oracle parses the grammar as written); locations "
+           "are not part of these grammars (the property excludes them). Trusted: TLC, rustc, harness runtime."),
+    _entry("C15", "Cfg.tla evaluates the predicates like Rust and deletes inactive nonterminals, alternatives and conversions; "
+                  "Sem.tla gives the behaviour of what remains for every feature subset; the parser generated from the annotated "
+                  "grammar under that feature set must match on every input up to the bound; CARGO_FEATURE_* vs set_features "
+                  "byte-compared.",
+           "Feature names without `_`; all()/any() with no argument and attributes on textually empty alternatives are not "
+           "generated (LALRPOP's syntax rejects them with a diagnostic). Trusted: TLC, rustc, harness runtime."),
+    _entry("C25", "The specification's records do not depend on identifiers; every injective renaming of nonterminals, bindings and "
+                  "a grammar parameter into LALRPOP-internal-looking names must yield the same verdict, compile, and match the "
+                  "same records.",
+           "Renamings are drawn from a fixed adversarial pool (not all identifiers); precedence-tier names are covered by C12's "
+           "population. Trusted: TLC, rustc, harness runtime."),
+]
